@@ -122,7 +122,7 @@ func lalrkGram2(r *rand.Rand) (*Gram, int) {
 }
 
 func c07(c *Ctx) {
-	c.Rule = "grammars built to need 2-4 tokens of lookahead (two reductions of one RHS whose contexts share a prefix made of terminals, terminal-deriving and nullable nonterminals) plus random CFGs, compiled by the real lalr.Compile with Lookahead k in 2..4; for each grammar that compiles without error: (1) Lean recomputes LALR(k) lookahead strings by item propagation and walks every lookahead automaton in the tables on every string, (2) all token strings up to length 5 + random sentences/mutations are run through the Lean parser model on the real tables and compared with a brute-force recogniser; non-trivial = UsedLADepth > 0; distinct by grammar"
+	c.Rule = "grammars built to need 2-4 tokens of lookahead (two reductions of one RHS whose contexts share a prefix made of terminals, terminal-deriving and nullable nonterminals) plus random CFGs, compiled by the real lalr.Compile with Lookahead k in 2..4; for each grammar that compiles without error: (1) Lean recomputes LALR(k) lookahead strings by item propagation, walks every lookahead automaton in the tables on every string, and checks the two certificates that are the hypotheses of C07_lr_sound_k / C07_lr_complete_k / C07_lr_exact_k (past-certificate against every leaf of every lookahead automaton; LR(k)-item certificate) on the real tables, (2) all token strings up to length 5 + random sentences/mutations are run through the Lean parser model on the real tables and compared with a brute-force recogniser; non-trivial = UsedLADepth > 0; distinct by grammar"
 	n := c.N(250, 4000)
 	for i := 0; i < n; i++ {
 		var g *Gram
@@ -161,10 +161,18 @@ func c07(c *Ctx) {
 		c.Debugf("k=%d %s", k, g.Pretty())
 		kline := fmt.Sprintf("lalrk %s %d %s", g.String(), k, tablesStr(t, g.NT))
 		known := false
-		if v := c.Lean([]string{kline}); strings.Contains(v[0], "[C01-shared-final-state]") {
+		v := c.Lean([]string{kline})
+		switch {
+		case strings.Contains(v[0], "[C01-shared-final-state]"):
 			// known class: the tables accept in an inner context; reported once through the lalrk case
 			known = true
 			c.Count("known class: shared final state")
+		case v[0] == "ok" && t.UsedLADepth > 0:
+			c.Count("certificates: deep-lookahead soundness (certKOk) + LR(k)-item completeness (complKOk) hold, UsedLADepth > 0")
+		case v[0] == "ok":
+			c.Count("certificates: certKOk + complKOk hold, lalr(1) already")
+		default:
+			c.Count("certificates: rejected")
 		}
 		c.Case(kline, "ok", key)
 		if !g.AllProductive() || known {
